@@ -52,9 +52,9 @@ var nearMiss = map[string][]string{
 	"GI": {"GS"}, "GS": {"GI", "BI"}, "BI": {"GS"},
 }
 
-// a type a value flowing at static type cur may legitimately be fed into (1 in 12: a near miss)
+// a type a value flowing at static type cur may legitimately be fed into (1 in 40: a near miss)
 func compatible(r *lib.Rng, cur string, concrete bool) string {
-	if nm := nearMiss[cur]; len(nm) > 0 && r.Chance(1, 12) {
+	if nm := nearMiss[cur]; len(nm) > 0 && r.Chance(1, 40) {
 		if t := nm[r.Intn(len(nm))]; !concrete || !isIface(t) {
 			return t
 		}
@@ -82,6 +82,28 @@ func compatible(r *lib.Rng, cur string, concrete bool) string {
 func genBase(r *lib.Rng, nconn int, concrete bool, clean bool) *base {
 	b := &base{}
 	badH := func(n, d int) bool { return !clean && r.Chance(n, d) }
+	// most types of one graph come from a small palette around one concrete type (the type, the
+	// interfaces it implements, any, one unrelated type), so that connections agree often
+	// whatever the size of the universe; 1 in 7 comes from the whole universe
+	core := pickTy(r, true)
+	palette := []string{core, core, core, pickTy(r, true)}
+	if !concrete {
+		for _, t := range allTypes {
+			if isIface(t) && rtypes[core].Implements(rtypes[t]) {
+				palette = append(palette, t)
+			}
+		}
+	}
+	pickTy := func(r *lib.Rng, conc bool) string {
+		if r.Chance(1, 7) {
+			return pickTy(r, conc)
+		}
+		for {
+			if t := palette[r.Intn(len(palette))]; !conc || !isIface(t) {
+				return t
+			}
+		}
+	}
 	b.in = pickTy(r, concrete)
 	if !concrete && r.Chance(2, 5) {
 		b.state = 1 + r.Intn(2)
@@ -348,6 +370,10 @@ func (engine) Generate(r *lib.Rng, tier string, i int) any {
 	if tier == "thorough" {
 		exhaustive, kmax, rmax = 10*(6+24+120+720), 6, 9
 	}
+	if i == 0 {
+		return &Case{In: "any", Out: "any", Src: "lattice"}
+	}
+	i--
 	if i < npairs {
 		return genPair(i)
 	}
